@@ -126,6 +126,22 @@ let do_chk (w : string array) : unit =
       { o_class = cls; o_fs = fs; o_children = ch; o_parents = pa }) in
   Printf.printf "%d %d\n" (if consistent_check tabs st g then 1 else 0) (if excl_check tabs st then 1 else 0)
 
+(* NAMES { D k unnamed ok | X k r | R }*   ->  live default names "k:r k:r .."  (NameModel.n_run) *)
+let do_names (w : string array) : unit =
+  let n = Array.length w in
+  let ops = ref [] in
+  let p = ref 1 in
+  while !p < n do
+    (match w.(!p) with
+     | "D" -> ops := NDefine (nat_of_int (int_of_string w.(!p + 1)), w.(!p + 2) <> "0", w.(!p + 3) <> "0") :: !ops; p := !p + 4
+     | "X" -> ops := NDelete (nat_of_int (int_of_string w.(!p + 1)), nat_of_int (int_of_string w.(!p + 2))) :: !ops; p := !p + 3
+     | "R" -> ops := NReset :: !ops; p := !p + 1
+     | _ -> failwith "NAMES: bad token")
+  done;
+  let st = n_run (List.rev !ops) n_empty in
+  print_string (String.concat " " (List.map (fun (k, r) -> Printf.sprintf "%d:%d" (int_of_nat k) (int_of_nat r)) st.n_live));
+  print_newline ()
+
 let () =
   try
     while true do
@@ -133,6 +149,7 @@ let () =
       let w = Array.of_list (words line) in
       if Array.length w > 0 && w.(0) = "MOP" then do_mop w
       else if Array.length w > 0 && w.(0) = "CHK" then do_chk w
+      else if Array.length w > 0 && w.(0) = "NAMES" then do_names w
       else if Array.length w > 0 then begin
         let p = ref 1 in
         let next () = let s = w.(!p) in Stdlib.incr p; s in
